@@ -465,7 +465,7 @@ def stream_search(repo, hint):
         elif r != ref:
             return {"reproduced": True, "target": f"{hint['file']}::{q}", "inputs": {"payload": payload.hex(), "cursor": pos},
                     "expected": f"same result as with the cursor at 0: {str(ref)[:60]!r}", "observed": f"{str(r)[:60]!r}"}
-        if b.tell() != pos:
+        if hint.get("check_cursor") and b.tell() != pos:
             return {"reproduced": True, "target": f"{hint['file']}::{q}", "inputs": {"payload": payload.hex(), "cursor": pos},
                     "expected": f"cursor restored to {pos}", "observed": f"cursor at {b.tell()}"}
     return None
@@ -544,7 +544,8 @@ def find(req):
     if not hint and "::" in (req.get("function") or ""):
         # obligation of a deductively verified function (contracts/C06.py::contracts): search at function level first
         rel, q = req["function"].split("::", 1)
-        hint = {"kind": "stream", "file": rel, "function": q}
+        # (restoring the cursor is only required where the obligation says so)
+        hint = {"kind": "stream", "file": rel, "function": q, "check_cursor": "position-restored" in (req.get("obligation") or "")}
     kind = hint.get("kind")
     if kind == "stream":
         r = stream_search(repo, hint)
